@@ -406,3 +406,37 @@ func Verif_C09_pipelined_cancel() {
 		got[1] == nil || (len(got[1].Question) == 1 && got[1].Question[0].Name == names[1]))
 	vs.Assert("the second query ends: answered or failed, not left waiting", got[1] != nil || errs[1] != nil)
 }
+
+// Verif_C09_forwarder_idle_evict: the janitor's idle eviction of a cached upstream forwarder races
+// with a query that has just looked the forwarder up (every interleaving with up to two
+// preemptions): the forwarder is never closed under a query that was admitted to it, and it is
+// closed at most once.
+func Verif_C09_forwarder_idle_evict() {
+	vs.Schedules(2)
+	vs.Assume(time.Now().After(time.Unix(1000, 0)))
+	f := &c09Forwarder{}
+	c := &DnsController{dnsControllerStore: newDnsControllerStore()}
+	c.dnsForwarderIdleTTL = time.Nanosecond
+	up := &dns.Upstream{Scheme: "udp", Hostname: "a", Port: 53}
+	arg := &dialArgument{}
+	entry := newCachedDnsForwarder(f, time.Now())
+	entry.lastUsedNano.Store(1) // idle for a long time
+	c.dnsForwarderCache.Store(newDnsForwarderKey(up, arg), entry)
+	go func() { // a query
+		e, err := c.getOrCreateDnsForwarder(up, arg)
+		if err != nil || e != entry {
+			return // the entry was already gone: the query builds its own forwarder (not modelled here)
+		}
+		if e.beginUse() {
+			f.inUse++
+			vs.Yield()
+			vs.Assert("an admitted query never sees its forwarder closed", f.closes == 0)
+			f.inUse--
+			e.endUse()
+		}
+	}()
+	go func() { c.evictIdleDnsForwarders(time.Now()) }() // the janitor
+	vs.Join()
+	vs.Assert("never closed while in use", !f.closedBusy)
+	vs.Assert("closed at most once", f.closes <= 1)
+}
